@@ -413,7 +413,48 @@ def ends_rule(repo, res, rule="ENDS"):
         res.check(ok, rule, f"{rule}:check::do_check_subword_spaces:SubwordSpaces#{i + 1}", f"first <= {a0[:80]} ; second <= {a1[:80]}" + ("" if ok else ": first must be the tail of the left neighbour, second the head of the right one"), f"{fn.file}:{s['l']}")
 
 
+def srctext_rule(repo, res, rule="SRCTEXT"):
+    """Positions are counted in the text that was parsed and shown against the text that is quoted: both must be the bytes of the usage
+    file.  In main.rs the value handed to Grammar::parse is the buffer filled by read_to_string with no string transformation applied
+    on the way (replace / trim / lines / to_lowercase / expand ...), and the `source` given to the diagnostics is that same value."""
+    fn = repo.fn("main::aot")
+    if fn is None:
+        res.undecided(rule, f"{rule}:main::aot", "function not found")
+        return
+    envs = A.collect_envs(fn)
+    ps = [c for c in P.find_calls(fn.body, names={"parse"}) if c["func"]["k"] == "Path" and "Grammar" in c["func"]["path"]]
+    if len(ps) != 1:
+        # the read may live in a helper (`read_file_or_stdin`): fall back on any call named parse
+        ps = [c for c in P.find_calls(fn.body, names={"parse"}) if c["args"]]
+    if len(ps) != 1:
+        res.undecided(rule, f"{rule}:main::aot:parse", f"{len(ps)} Grammar::parse call sites", fn.loc())
+        return
+    c = ps[0]
+    ALLOWED = {"read_to_string", "context", "with_context", "to_owned", "clone", "default", "new", "as_str", "as_ref", "borrow", "to_string", "into", "unwrap", "expect", "map_err", "ok_or", "with_capacity"}
+    calls = A.reach_calls(c["args"][0], envs.get(id(c)), fn=fn, envs=envs)
+    # a helper that reads the file counts through its own body
+    for h in repo.fns_in("main"):
+        if h.name in calls and h is not fn:
+            calls |= {x["method"] for x in A.walk(h.body) if x["k"] == "MethodCall"}
+    helpers = {h.name for h in repo.fns_in("main")}
+    extra = sorted(m for m in calls if m not in ALLOWED and m not in helpers and m not in ("stdin", "open", "Box", "Ok", "Some"))
+    res.check("read_to_string" in calls and not extra, rule, f"{rule}:main::aot:parsed-text-is-file-text", "Grammar::parse receives the buffer read from the usage file, untransformed" if not extra else f"the text is transformed before it is parsed ({extra}): positions are then counted in a text that is not the file", f"{fn.file}:{c['l']}")
+    src = A.resolve(c["args"][0], envs.get(id(c)))
+    same = True
+    n = 0
+    for h in P.find_calls(fn.body, names={"handle_error"}) :
+        if len(h["args"]) >= 3:
+            n += 1
+            same = same and P.peel(A.resolve(h["args"][2], envs.get(id(h)))) == P.peel(src)
+    for w in P.find_calls(fn.body, methods={"warning", "error"}):
+        if len(w["args"]) == 3:
+            n += 1
+            same = same and P.peel(A.resolve(w["args"][1], envs.get(id(w)))) == P.peel(src)
+    res.check(same and n >= 2, rule, f"{rule}:main::aot:quoted-text-is-parsed-text", f"{n} diagnostic sites quote lines of the very text that was parsed", fn.loc())
+
+
 def run(repo, res, tier):
+    srctext_rule(repo, res)
     from . import c15
     c15.book_rules(repo, res)  # which span is stored for `Unused` / `Unused specialization` / `Undefined` (the warning's place)
     from . import c11
